@@ -2,12 +2,15 @@ import ExprModel.Drv.Arith
 import ExprModel.Drv.Code
 import ExprModel.Drv.Determinism
 import ExprModel.Drv.Lex
+import ExprModel.Drv.Opt
 import ExprModel.Drv.Parse
+import ExprModel.Drv.Pipeline
 import ExprModel.Drv.Source
 import ExprModel.Drv.Spec
 import ExprModel.Drv.SrcDefects
 import ExprModel.Drv.Types
 import ExprModel.Drv.Walk
+import ExprModel.Drv.Wf
 /-
 The model driver: one request per line on stdin (an S-expression `(tag arg…)`), one response per line
 on stdout.  Core-only (no Mathlib, no proof modules), so it links as a `lean_exe` and keeps building
@@ -20,12 +23,15 @@ def handlers : List (String × (List Sexp → Sexp)) :=
   Drv.parseHandlers ++
   Drv.codeHandlers ++
   Drv.specHandlers ++
+  Drv.wfHandlers ++
   Drv.sourceHandlers ++
   Drv.lexHandlers ++
   Drv.walkHandlers ++
   Drv.typesHandlers ++
   Drv.srcDefectsHandlers ++
-  Drv.determinismHandlers
+  Drv.determinismHandlers ++
+  Drv.optHandlers ++
+  Drv.pipelineHandlers
 
 def dispatch (req : Sexp) : Sexp :=
   match req with
